@@ -929,6 +929,11 @@ theorem nestOK_custom (t : Str) (anc : List Str) (h1 : pClosers.contains t = fal
   rw [h1, h4]
   simp [h2, h3]
 
+theorem clean_of_inert (s : Str) (h : titleInert s = true) : clean s = true := by
+  simp only [titleInert, clean, List.all_eq_true, Bool.and_eq_true, bne_iff_ne, ne_eq] at h ⊢
+  intro x hx
+  exact ⟨(h x hx).1.1.1, (h x hx).1.1.2⟩
+
 def vTitleKids : List VNode → Bool
   | [.text s] => clean s
   | _ => false
@@ -954,6 +959,7 @@ theorem vBlank_facts : (n : VNode) → ∀ (esc : Bool) (pos : Pos), vBlank esc 
   | .elem .., _, _, h => by simp [vBlank] at h
   | .island .., _, _, h => by simp [vBlank] at h
   | .islandChildren _, _, _, h => by simp [vBlank] at h
+  | .resetPos, _, _, h => by simp [vBlank] at h
   | .seq ks, esc, pos, h => by
     have := vBlankKids_facts ks esc pos (by simpa [vBlank] using h)
     simpa [vHtml, vPos, vRawText, vStruct] using this
@@ -1091,7 +1097,7 @@ tuples / arrays / `StaticVec` / `Fragment` (`seq`), `Vec` (`vec`), `()` / `None`
 child may stand in an escaping element. -/
 def vwfNode (anc : List Str) : VNode → Bool
   | .text s => clean s
-  | .prim s => s != [] && titleInert s
+  | .prim s => s != [] && (titleInert s || (primEscaped && clean s))
   | .elem tag attrs kids =>
     attrsOK attrs && nestOK tag anc &&
       ((genericOK tag && vwfKids (tag :: anc) kids) || (voidOK tag && kids.isEmpty) ||
@@ -1102,6 +1108,7 @@ def vwfNode (anc : List Str) : VNode → Bool
   | .unit => true
   | .island c p ks => compOK c && clean p && vwfKids (tIsland :: anc) ks
   | .islandChildren ks => vwfKids (tIslandChildren :: anc) ks
+  | .resetPos => false
 def vwfKids (anc : List Str) : List VNode → Bool
   | [] => true
   | n :: ns => vwfNode anc n && vwfKids anc ns
@@ -1141,16 +1148,36 @@ theorem run_vnode : (n : VNode) → ∀ (f : Frame) (fs : List Frame) (pos : Pos
     have hm' : curMode (f :: fs) = .data := hm
     have htt : textTree s = [.text s] := by simp [textTree, hne]
     refine ⟨?_, by simp [vPos, vStruct, htt, headIsText]⟩
+    -- what the primitive prints (raw, or escaped after fix-c06-5) is read back as its text
+    have hbody : ∀ (g : Frame), modeOfTag g.tag = .data → headIsText g.kidsRev = false →
+        run ⟨.text, g :: fs⟩ (if (true && primEscaped) = true then escapeText s else s) =
+          some ⟨.text, { g with kidsRev := .text s :: g.kidsRev } :: fs⟩ := by
+      intro g hg hk
+      by_cases hpe : primEscaped = true
+      · have hcl : clean s = true := by
+          simp only [Bool.or_eq_true, Bool.and_eq_true] at hin
+          rcases hin with h | h
+          · exact clean_of_inert s h
+          · exact h.2
+        simp only [hpe, Bool.and_self, if_true]
+        rw [run_escapeText s g fs (Or.inl hg) hcl, pushStrKids_fresh s _ hne hk]
+      · have hin' : titleInert s = true := by
+          simp only [Bool.or_eq_true, Bool.and_eq_true] at hin
+          rcases hin with h | h
+          · exact h
+          · exact absurd h.1 hpe
+        have : primEscaped = false := by simpa using hpe
+        simp only [this, Bool.and_false, Bool.false_eq_true, if_false]
+        rw [run_inert s g fs (Or.inl hg) hin', pushStrKids_fresh s _ hne hk]
     simp only [vHtml, vStruct, markerIf, htt]
     by_cases ha : pos = .afterText
     · simp only [ha, decide_true, if_true]
       rw [run_append, run_marker hm', Option.bind_some,
-        run_inert s { f with kidsRev := .comment [] :: f.kidsRev } fs (Or.inl hm) hin,
-        pushStrKids_fresh s _ hne rfl]
+        hbody { f with kidsRev := .comment [] :: f.kidsRev } hm rfl]
       simp
     · have hk := headIsText_false_of hp ha
       simp only [ha, decide_false, if_false, List.nil_append, Bool.false_eq_true]
-      rw [run_inert s f fs (Or.inl hm') hin, pushStrKids_fresh s _ hne hk]
+      rw [hbody f hm hk]
       simp
   | .elem tag attrs kids, f, fs, pos, hw, hm, _ => by
     have hm' : curMode (f :: fs) = .data := hm
@@ -1322,6 +1349,7 @@ theorem run_vnode : (n : VNode) → ∀ (f : Frame) (fs : List Frame) (pos : Pos
       simp [vHtml, attrsHtml, plainPart, classBuf, styleBuf]
     rw [e, run_append, hopen, hstart, Option.bind_some, run_append, ih, Option.bind_some, hclose]
     simp [vStruct]
+  | .resetPos, _, _, _, hw, _, _ => by simp [vwfNode] at hw
 theorem run_vkids : (ns : List VNode) → ∀ (f : Frame) (fs : List Frame) (pos : Pos),
     vwfKids ((f :: fs).map (·.tag)) ns = true → modeOfTag f.tag = .data →
     (headIsText f.kidsRev = true → pos = .afterText) →
